@@ -45,15 +45,15 @@ type executor struct {
 	nSites  int
 	timeout time.Duration
 
-	runs     atomic.Int64 // scenarios executed (any mode)
-	procs    atomic.Int64 // OS processes started
-	fresh    atomic.Int64 // scenarios executed in a process of their own
-	refRuns  atomic.Int64
-	refHits  atomic.Int64
-	crashes  atomic.Int64
-	retired  atomic.Int64
-	refMu    sync.Mutex
-	refs     map[string]*refEntry
+	runs    atomic.Int64 // scenarios executed (any mode)
+	procs   atomic.Int64 // OS processes started
+	fresh   atomic.Int64 // scenarios executed in a process of their own
+	refRuns atomic.Int64
+	refHits atomic.Int64
+	crashes atomic.Int64
+	retired atomic.Int64
+	refMu   sync.Mutex
+	refs    map[string]*refEntry
 }
 
 type refEntry struct {
